@@ -1150,6 +1150,90 @@ def check_metrics(case):
 
 
 # ---------------------------------------------------------------------------
+
+# ---------------------------------------------------------------------------
+# ContinuousCategoricalFeatureMapper (feature_mapper.py): split one-hot features
+# of a TrialToArrayConverter into continuous + categorical-index arrays and back
+# ---------------------------------------------------------------------------
+@st.composite
+def feature_mapper_case(draw):
+  spec = draw(spaces.flat_space(1, 6, degenerate=False))
+  # the declaration order decides where one-hot blocks and continuous columns
+  # interleave: draw it explicitly
+  order = draw(st.permutations(list(range(len(spec['params'])))))
+  spec = {'params': [spec['params'][i] for i in order]}
+  pts = draw(st.lists(spaces.point_in(spec), min_size=1, max_size=4))
+  return {'space': spec, 'points': pts,
+          'mdi': draw(st.sampled_from([0, 10]))}
+
+
+def feature_mapper_strategy():
+  return feature_mapper_case()
+
+
+def check_feature_mapper(case):
+  import numpy as np
+  from vizier import pyvizier as vz
+  from vizier.pyvizier import converters
+  from vizier.pyvizier.converters import feature_mapper
+  out = core.Out()
+  spec = case['space']
+  problem = spaces.problem(spec)
+  conv = converters.TrialToArrayConverter.from_study_config(
+      problem, max_discrete_indices=case['mdi'])
+  trials = [vz.Trial(parameters=p) for p in case['points']]
+  feats = np.asarray(conv.to_features(trials))
+  mapper = feature_mapper.ContinuousCategoricalFeatureMapper(conv)
+  # independent expectation from the published output specs
+  cont_cols, blocks = [], []
+  col = 0
+  for spec_ in conv.output_specs:
+    if spec_.type == converters.NumpyArraySpecType.CONTINUOUS:
+      cont_cols.append(col)
+      col += 1
+    else:
+      blocks.append((col, spec_.num_dimensions))
+      col += spec_.num_dimensions
+  mapped = mapper.map(feats)
+  cont = np.asarray(mapped.continuous)
+  cat = np.asarray(mapped.categorical)
+  want_cont = feats[:, cont_cols]
+  if cont.shape != want_cont.shape or not np.allclose(cont, want_cont,
+                                                       rtol=2e-6, atol=1e-6):
+    out.violate('feature_mapper/map/continuous',
+                'got %r want %r' % (cont.tolist(), want_cont.tolist()))
+  want_cat = np.array([[int(np.argmax(feats[r, c0:c0 + w]))
+                        for c0, w in blocks] for r in range(len(feats))],
+                      dtype=int).reshape(len(feats), len(blocks))
+  if cat.shape != want_cat.shape or not np.array_equal(cat, want_cat):
+    out.violate('feature_mapper/map/categorical',
+                'got %r want %r' % (cat.tolist(), want_cat.tolist()))
+  back = np.asarray(mapper.unmap(mapped))
+  # unmap() returns a jax array (float32 unless x64 is enabled)
+  if back.shape != feats.shape or not np.allclose(back, feats, rtol=2e-6,
+                                                   atol=1e-6):
+    out.violate('feature_mapper/unmap_not_inverse',
+                'features=%r unmap(map(.))=%r' % (feats.tolist(),
+                                                  back.tolist()))
+  else:
+    decoded = conv.to_parameters(back)
+    for d, p in zip(decoded, case['points']):
+      got = spaces.param_values_to_py(d)
+      if not spaces.member(spec, got):
+        out.violate('feature_mapper/decode_not_member',
+                    spaces.member_reason(spec, got))
+  if blocks:
+    out.cls('fm_has_onehot')
+  if cont_cols:
+    out.cls('fm_has_continuous')
+  if blocks and cont_cols and blocks[0][0] < max(cont_cols):
+    out.cls('fm_onehot_before_continuous')
+  if len(blocks) >= 2:
+    out.cls('fm_two_blocks')
+  out.nontrivial = bool(blocks and cont_cols)
+  return out
+
+
 def families(tier):
   conv_classes = tuple('conv_' + c for c in (
       'dict', 'array', 'padded', 'cc', 'model_input', 'scaler'))
@@ -1185,4 +1269,11 @@ def families(tier):
                       'safety_metric', 'missing_metric',
                       'flipped_minimize_objective', 'to_trials_roundtrip',
                       'dtype_float32', 'dtype_float64')),
+      core.Family('feature_mapper', check_feature_mapper,
+                  strategy=feature_mapper_strategy,
+                  budget={'quick': 600, 'thorough': 15000},
+                  shards={'quick': 4, 'thorough': 16},
+                  required_classes=('fm_has_onehot', 'fm_has_continuous',
+                                    'fm_onehot_before_continuous',
+                                    'fm_two_blocks')),
   ]
